@@ -4,6 +4,11 @@ use crate::engine::DynSub;
 pub mod c01;
 pub mod c02;
 pub mod c03;
+pub mod c04;
+pub mod c05;
+pub mod c06;
+pub mod c14;
+pub mod c15;
 
 pub struct PropMeta {
     pub id: &'static str,
@@ -17,6 +22,11 @@ pub fn all() -> Vec<PropMeta> {
         PropMeta { id: "C01", rule: c01::RULE, assumptions: c01::ASSUMPTIONS, subs: c01::subs },
         PropMeta { id: "C02", rule: c02::RULE, assumptions: c02::ASSUMPTIONS, subs: c02::subs },
         PropMeta { id: "C03", rule: c03::RULE, assumptions: c03::ASSUMPTIONS, subs: c03::subs },
+        PropMeta { id: "C04", rule: c04::RULE, assumptions: c04::ASSUMPTIONS, subs: c04::subs },
+        PropMeta { id: "C05", rule: c05::RULE, assumptions: c05::ASSUMPTIONS, subs: c05::subs },
+        PropMeta { id: "C06", rule: c06::RULE, assumptions: c06::ASSUMPTIONS, subs: c06::subs },
+        PropMeta { id: "C14", rule: c14::RULE, assumptions: c14::ASSUMPTIONS, subs: c14::subs },
+        PropMeta { id: "C15", rule: c15::RULE, assumptions: c15::ASSUMPTIONS, subs: c15::subs },
     ]
 }
 
